@@ -10,6 +10,7 @@ are run-time facts: they are covered by the correspondence runs only.
 -/
 import ReuseVerif.Lemmas.AggregateMain
 import ReuseVerif.Generated.EndPattern
+import ReuseVerif.Lemmas.NamesMain
 
 namespace C14
 open Model Py List
@@ -142,6 +143,38 @@ theorem C14_root (cwd₁ cwd₂ : List String) (s₁ s₂ : Text) (rel : List St
   have hc : ".." ∉ rel := by simpa [relClean] using hrel
   refine ⟨?_, by rw [C14_root_relative, C14_root_relative]⟩
   rw [resolve_joinRel _ _ _ hc, resolve_joinRel _ _ _ hc, hsame]
+
+/-- Root spelling, part 3.  The walk from the root yields the same files for every spelling of
+    the root and every enumeration order (the repaired walk does not consult the spelling). -/
+theorem C14_root_walk (σ : List (String × Node) → List (String × Node)) (hσ : ∀ l, σ l ~ l)
+    (cfg : WalkCfg) (s₁ s₂ : Text) (cs : List (String × Node)) :
+    iterFilesFromRoot σ cfg (parsePath s₁) cs ~ iterFilesFromRoot id cfg (parsePath s₂) cs := by
+  unfold iterFilesFromRoot
+  exact (C14_walk_perm σ hσ cfg "" cs).trans (C14_walk_perm id (fun _ => .refl _) cfg "" cs).symm
+
+/-- The previous behaviour was NOT independent of the spelling: for a project directory named
+    `subprojects`, the top-level directory `d` is pruned as a Meson subproject when the root is
+    given as `/x/subprojects` and walked when it is given as `.`. -/
+theorem C14_root_name_witness :
+    let cfg : WalkCfg := { includeSubmodules := false, includeMeson := false, includeReuseTomls := false,
+                           vcsIgnored := fun _ => false, isSubmodule := fun _ => false }
+    dirIgnored cfg [] (rootNameOf (parsePath "/x/subprojects".toList)) "d" = true ∧
+    dirIgnored cfg [] (rootNameOf (parsePath ".".toList)) "d" = false := by
+  intro cfg
+  have r1 : rootNameOf (parsePath "/x/subprojects".toList) = "subprojects" := by decide
+  have r2 : rootNameOf (parsePath ".".toList) = "" := by decide
+  have m1 : anyPattern Generated.ignoreMesonParentPatterns "subprojects" = true :=
+    (meson_name_rule "subprojects".toList (by decide)).mpr rfl
+  have m2 : anyPattern Generated.ignoreMesonParentPatterns "" = false := by
+    rw [Bool.eq_false_iff]; exact fun h => by
+      have := (meson_name_rule "".toList (by decide)).mp h; simp at this
+  have d0 : anyPattern Generated.ignoreDirPatterns "d" = false := by
+    rw [Bool.eq_false_iff]; exact fun h => by
+      have := (dir_name_rule "d".toList (by decide)).mp h; simp at this
+  rw [r1, r2]
+  constructor
+  · simp [dirIgnored, m1, cfg]
+  · simp [dirIgnored, m2, d0, cfg]
 
 -- Non-vacuity.
 example : [("a", "1"), ("b", "2")] ~ [("b", "2"), ("a", "1")] := .swap _ _ _
